@@ -77,6 +77,12 @@ pub fn run_statistics_worker(
     let mut peers: IndexMap<PeerId, (usize, PeerClient, CompactString)> = IndexMap::default();
 
     loop {
+        // Verification hook: fault injection point
+        #[cfg(aquatic_verif)]
+        if aquatic_common::verif::fault("udp_statistics", 0) {
+            return Ok(());
+        }
+
         let start_time = Instant::now();
 
         for message in statistics_receiver.try_iter() {
